@@ -1,4 +1,6 @@
 """C15 - aa-log reports each record's own field values, faithfully decoded."""
+import re
+
 from . import logsgen, worker
 from .common import digest, pmap
 
@@ -128,7 +130,8 @@ def run(ctx):
                 line = logsgen.render(r["fields"])
                 if len(cand) != 1:
                     # not found by its identifying value: the identifying value itself was altered, or the record was dropped
-                    near = [m for m in out if m.get("operation") == want.get("operation") and any(logsgen.tagstr(r["tag"]) in str(v) for v in m.values())]
+                    near = [m for m in out if m.get("operation") == want.get("operation")
+                            and any(re.search(r"(?<![g-p])(c|zq|T|m|q|old|s)" + logsgen.tagstr(r["tag"]) + r"(?![g-p])", str(v)) for v in m.values())]
                     if near:
                         m = near[0]
                     else:
